@@ -25,7 +25,8 @@ ScoolClauses(e) ==
      <<"commonTable", All(got, LAMBDA g : g.bins = t) /\ e.obs.root_bins = t>>,
      <<"binsSharedNotCopied", All(got, LAMBDA g : g.bins_addr = e.obs.root_bins_addr /\ g.chroms_addr = e.obs.root_chroms_addr)>>,
      <<"perCellExtraKept", All(given, LAMBDA c : CellByName(got, c.name).extra = c.extra)>>,
-     <<"ncells", e.obs.ncells = Len(given)>> >>
+     <<"ncells", e.obs.ncells = Len(given)>>,
+     <<"laterColumnStaysInItsCell", e.obs.later_column_own /\ Len(e.obs.later_column_leaked) = 0>> >>
   \o Flat([k \in DOMAIN got |-> got[k].raw], 1)
 
 (* rn.rename: a chain of renamings; after each one the live object and a freshly opened one are projected *)
